@@ -15,7 +15,7 @@ def run(rep, tier, seed):
         rep.violation({'kind': 'proof-broken', 'log': pr['log'][-3000:], 'forbidden': pr['forbidden']}, suffix='no-failing-input-found')
     nh, nops = (32, 90) if tier == 'quick' else (1200, 300)
     import histgen
-    k2check.run_k2(rep, 'C01', tier, seed, 'c01', nh, nops, extra_histories=[histgen.straddle_history(40, 0), histgen.straddle_history(24, 1)] + histgen.corpus_histories())
+    k2check.run_k2(rep, 'C01', tier, seed, 'c01', nh, nops, extra_histories=[histgen.straddle_history(40, 0), histgen.straddle_history(24, 1), histgen.straddle_history(24, 2)] + histgen.corpus_histories())
     import extra_c01
     extra_c01.run_extra(rep, tier, seed)      # K1 ties of the LRU cache, the skiplist (incl. PRNG heights) and the memtable
     rep.cov['rule'] = ('histories of put/del/batch/get/has/snapshot/flush/compact-range/compact/reopen/scan/iterate over colliding keys, '
